@@ -48,6 +48,7 @@ func runC06(c *Ctx) {
 	c.c06MoveOrder()
 	c.c06WritersReplace()
 	c.c06Overlap()
+	c.c06MoveKeepsWhatStays()
 }
 
 // c06Overlap: "a copy never changes its source, also when source and destination overlap" / "a call terminates".
@@ -713,4 +714,180 @@ func canonicalPath(v ssa.Value, depth int) bool {
 		return len(x.Edges) > 0
 	}
 	return false
+}
+
+// c06MoveKeepsWhatStays (Z7). A move that falls back to "copy, then remove the source" relies on the copy having put
+// the content somewhere else. The copy resolves an existing directory as destination to dest/base(src) and does
+// nothing (successfully) when that is the source itself: the removal then destroys the only copy. Before the
+// copy-and-remove is reached the function — or every package-local caller on the way to it — must have ruled out that
+// the source already is where it is moved to, by a test relating the source with the destination's resolution.
+func (c *Ctx) c06MoveKeepsWhatStays() {
+	c.rule("Z7", "move: the copy-then-remove fall-back is reached only after a test that the source is not already in the destination directory (the copy of an item onto itself succeeds without copying)", 2)
+	isResolutionTest := func(f *ssa.Function, before ssa.Instruction) (ssa.Instruction, bool) {
+		si, di := paramIndexByName(f, "src"), paramIndexByName(f, "dest")
+		if si < 0 || di < 0 {
+			return nil, false
+		}
+		src, dest := f.Params[si], f.Params[di]
+		var found ssa.Instruction
+		ok := false
+		allInstrs(f, func(in ssa.Instruction) {
+			cl, isCall := in.(*ssa.Call)
+			if !isCall {
+				return
+			}
+			g := staticCallee(&cl.Call)
+			related := false
+			if g != nil && inPkg(fsPkgRel)(g) && g.Blocks != nil && g != f {
+				// a predicate of the package over (…, src, dest) that joins dest with the base of src and compares with src
+				hs, hd := false, false
+				for _, a := range cl.Call.Args {
+					if resolveValue(a) == ssa.Value(src) {
+						hs = true
+					}
+					if resolveValue(a) == ssa.Value(dest) {
+						hd = true
+					}
+				}
+				if hs && hd && c06ComparesWithResolution(g) {
+					related = true
+				}
+			}
+			if !related {
+				return
+			}
+			// its true side must not reach `before`
+			for _, b := range f.Blocks {
+				ifi, isIf := b.Instrs[len(b.Instrs)-1].(*ssa.If)
+				if !isIf {
+					continue
+				}
+				v, ts := boolTest(ifi)
+				uses := false
+				for _, l := range sources(v, deriveOpts{}) {
+					if l == ssa.Value(cl) {
+						uses = true
+					}
+				}
+				if p, isPhi := v.(*ssa.Phi); isPhi {
+					for _, e := range p.Edges {
+						if e == ssa.Value(cl) {
+							uses = true
+						}
+					}
+				}
+				if !uses {
+					continue
+				}
+				reach := pathPruned(f, ifi, func(ssa.Instruction) bool { return false }, func(i ssa.Instruction) bool { return i == before }, func(bb *ssa.BasicBlock, k int) bool { return bb == b && k != ts })
+				// between two different filesystem objects nothing can be "already there": those edges are left out
+				differ := func(bb *ssa.BasicBlock, k int) bool {
+					fi, ok := bb.Instrs[len(bb.Instrs)-1].(*ssa.If)
+					if !ok {
+						return false
+					}
+					cv, cts := boolTest(fi)
+					bo, ok := cv.(*ssa.BinOp)
+					if !ok || (bo.Op != token.EQL && bo.Op != token.NEQ) {
+						return false
+					}
+					isFsParam := func(x ssa.Value) bool {
+						p, ok := resolveValue(x).(*ssa.Parameter)
+						return ok && (p.Name() == "srcFs" || p.Name() == "destFs")
+					}
+					if !isFsParam(bo.X) || !isFsParam(bo.Y) {
+						return false
+					}
+					d := 1 - cts
+					if bo.Op == token.NEQ {
+						d = cts
+					}
+					return k == d
+				}
+				if reach == nil && pathPruned(f, nil, func(i ssa.Instruction) bool { return i == ssa.Instruction(cl) }, func(i ssa.Instruction) bool { return i == before }, differ) == nil {
+					found, ok = cl, true
+				}
+			}
+		})
+		return found, ok
+	}
+	for _, name := range []string{"(*VFS).moveFile", "MoveBetweenFS"} {
+		f := c.fn(fsPkgRel, name)
+		c.FuncsSeen[fname(f)] = true
+		var cp *ssa.Call
+		allInstrs(f, func(in ssa.Instruction) {
+			if cl, ok := in.(*ssa.Call); ok {
+				if g := staticCallee(&cl.Call); g != nil && strings.HasPrefix(g.Name(), "CopyBetweenFS") {
+					cp = cl
+				}
+			}
+		})
+		key := fname(f) + "/source-not-already-there"
+		if cp == nil {
+			c.ok("Z7", key, c.pos(f.Pos()), "no copy-then-remove fall-back in this function")
+			continue
+		}
+		if at, ok := isResolutionTest(f, cp); ok {
+			c.ok("Z7", key, c.ipos(at), "tested here before the copy-and-remove")
+			continue
+		}
+		// otherwise every package-local call site must have tested before calling
+		sites, all := 0, true
+		where := ""
+		for _, g := range c.srcFuncs(fsPkgRel) {
+			allInstrs(g, func(in ssa.Instruction) {
+				cc := callCommon(in)
+				if cc == nil || staticCallee(cc) != f {
+					return
+				}
+				sites++
+				if at, ok := isResolutionTest(outermost(g), in); ok {
+					where = c.ipos(at)
+				} else {
+					all = false
+				}
+			})
+		}
+		c.check(sites > 0 && all, "Z7", key, c.ipos(cp), "every caller tests before it falls back to the copy-and-remove ("+where+")",
+			"the copy-then-remove fall-back is reached without a test that the source is not already in the destination directory: Move(\"d/f\", \"d\") copies d/f onto itself (which succeeds without copying) and then removes it — the file is gone, the call reports success")
+	}
+}
+
+// c06ComparesWithResolution: g compares (==) a cleaned form of one of its string parameters with
+// filepath.Join(another parameter, filepath.Base(the first)) — the destination's resolution used by the copy.
+func c06ComparesWithResolution(g *ssa.Function) bool {
+	found := false
+	allInstrs(g, func(in ssa.Instruction) {
+		b, ok := in.(*ssa.BinOp)
+		if !ok || b.Op != token.EQL {
+			return
+		}
+		hasJoinBase := func(v ssa.Value) bool {
+			res := false
+			var walk func(x ssa.Value, d int)
+			walk = func(x ssa.Value, d int) {
+				if d == 0 || x == nil {
+					return
+				}
+				if cl, ok := x.(*ssa.Call); ok {
+					if calleeFull(&cl.Call) == "path/filepath.Join" {
+						for _, e := range variadicElems(cl.Call.Args[0]) {
+							if bc, ok := e.(*ssa.Call); ok && calleeFull(&bc.Call) == "path/filepath.Base" {
+								res = true
+							}
+						}
+					}
+					for _, a := range cl.Call.Args {
+						walk(a, d-1)
+					}
+				}
+			}
+			walk(v, 4)
+			return res
+		}
+		if hasJoinBase(b.X) || hasJoinBase(b.Y) {
+			found = true
+		}
+	})
+	return found
 }
